@@ -500,6 +500,42 @@ pub fn run_c02(o: &Opts) -> Report {
         for i in 0..(per / 3).max(8) {
             values.push((wild.narsese(&mut rng, i % 3, None), false));
         }
+        // corners of the item layer, for every format: an atom that begins like a budget (prefix = budget bracket,
+        // numeric name), every stamp form with empty content, empty budget, bare atoms ending in stamp / truth
+        // content characters, every punctuation with every prefix, single-entry and five-entry truths
+        {
+            let num = |s: &str| LTerm::new_atom("", s);
+            let bl = fm.l.task.budget_brackets.0.clone();
+            for p in v.prefixes.iter() {
+                for name in ["1", "0", "12", "a", "x1", "a1"] {
+                    if !dom.name_ok(name) {
+                        continue;
+                    }
+                    let a = LTerm::new_atom(p.clone(), name);
+                    values.push((LNarsese::Term(a.clone()), true));
+                    for q in v.punctuations.iter() {
+                        values.push((LNarsese::Sentence(LSentence::new(a.clone(), q.clone(), "", vec![])), true));
+                        values.push((LNarsese::Sentence(LSentence::new(a.clone(), q.clone(), "", vec!["1".to_string()])), true));
+                    }
+                }
+                if *p == bl {
+                    cx.rep.hist.add(format!("{}:corner:prefix-equals-budget-bracket", fm.name));
+                }
+            }
+            for (a, b) in v.stamp_brackets.iter() {
+                for content in ["", "1", "-1", "+0"] {
+                    if a.is_empty() && !content.is_empty() {
+                        continue;
+                    }
+                    let st = format!("{}{}{}", a, content, b);
+                    for tv in [vec![], vec!["0.5".to_string()], vec!["1".to_string(), "0.9".to_string(), ".".to_string(), "7".to_string(), "0".to_string()]] {
+                        values.push((LNarsese::Sentence(LSentence::new(num("a"), v.punctuations[0].clone(), st.clone(), tv.clone())), true));
+                        values.push((LNarsese::Task(LTask { budget: vec![], sentence: LSentence::new(num("12"), v.punctuations[1].clone(), st.clone(), tv.clone()) }), true));
+                        values.push((LNarsese::Task(LTask { budget: vec!["0.1".to_string()], sentence: LSentence::new(LTerm::new_set(v.set_brackets[0].0.clone(), vec![num("a")], v.set_brackets[0].1.clone()), v.punctuations[2].clone(), st.clone(), tv) }), true));
+                    }
+                }
+            }
+        }
         // the K5 witness of DESIGN.md and its harmless neighbours
         if fm.idx == 2 {
             values.push((LNarsese::Term(LTerm::new_statement("得", LTerm::new_atom("", "x将"), LTerm::new_atom("", "y"))), true));
